@@ -1,5 +1,6 @@
 import SaramaVerif.Driver.Util
 import SaramaVerif.Model.Producer
+import SaramaVerif.Model.IdemBroker
 /-
   Replays hook-event traces of the real async producer through Model.Producer.step (trace validation).
   Lines:  reset <retryMax> <icepts> <idem>   |   ev <kind> <id> <a> <b>   |   end <closedSeen>
@@ -11,6 +12,22 @@ open Model.Producer Driver
 structure DS where
   st : St
   failed : Bool
+  brokers : List (Int × Model.IdemBroker.PState) := []   -- partition → leader state for the scenario's producer id
+
+def getB (l : List (Int × Model.IdemBroker.PState)) (p : Int) : Model.IdemBroker.PState :=
+  match l.find? (fun x => x.1 = p) with
+  | some x => x.2
+  | none => {}
+
+def setB (l : List (Int × Model.IdemBroker.PState)) (p : Int) (s : Model.IdemBroker.PState) :
+    List (Int × Model.IdemBroker.PState) :=
+  (p, s) :: l.filter (fun x => x.1 ≠ p)
+
+def showVerdict : Model.IdemBroker.Verdict → String
+  | .appended b => s!"app {b}"
+  | .duplicate b => s!"dup {b}"
+  | .outOfOrder => "ooo"
+  | .fenced => "fenced"
 
 def toEv (kind : String) (id a : Int) : Option Ev :=
   match kind with
@@ -38,7 +55,12 @@ def toEv (kind : String) (id a : Int) : Option Ev :=
 def step (d : DS) (t : List String) : DS × String :=
   match t with
   | ["reset", rm, ic, idem] =>
-    ({ st := init { retryMax := nat! rm, icepts := nat! ic, idem := idem = "1" }, failed := false }, "ok")
+    ({ st := init { retryMax := nat! rm, icepts := nat! ic, idem := idem = "1" }, failed := false, brokers := [] }, "ok")
+  | ["bb", p, epoch, firstSeq, payloads] =>
+    -- one batch arriving at the leader of partition p (simulated cluster ↔ Model.IdemBroker.arrive)
+    let st := getB d.brokers (int! p)
+    let (st', v) := Model.IdemBroker.arrive st (int! epoch) (nat! firstSeq) (intList payloads)
+    ({ d with brokers := setB d.brokers (int! p) st' }, showVerdict v)
   | ["ev", kind, id, a, _b] =>
     if d.failed then (d, "ok") else
     match toEv kind (int! id) (int! a) with
